@@ -231,6 +231,17 @@ class HIter:
 
 
 @dataclass
+class HCIter:
+    """iterator over a concrete spine"""
+
+    items: list
+    pos: int = 0
+
+    def copy(self):
+        return HCIter(self.items, self.pos)
+
+
+@dataclass
 class HDeque:
     items: list
 
